@@ -112,8 +112,18 @@ class CursorWalk:
         var = None
         if isinstance(st, ast.Assign) and len(st.targets) == 1:
             var = dotted(st.targets[0])
-        calls = [n for n in walk_no_nested(st) if isinstance(n, ast.Call)]
-        calls.sort(key=lambda c: (c.end_lineno or c.lineno, c.end_col_offset or 0))
+        # calls of the statement in evaluation order: a call completes after its callee expression and its arguments
+        # (post-order, left to right).  Source positions are not used - nodes synthesised by the normaliser share one.
+        calls = []
+
+        def _post(node):
+            for ch in ast.iter_child_nodes(node):
+                if not isinstance(ch, (ast.FunctionDef, ast.AsyncFunctionDef, ast.ClassDef, ast.Lambda)):
+                    _post(ch)
+            if isinstance(node, ast.Call):
+                calls.append(node)
+
+        _post(st)
         for c in calls:
             if isinstance(c.func, ast.Attribute) and dotted(c.func.value) == self.stream:
                 m = c.func.attr
